@@ -14,6 +14,7 @@ A run is compared up to the first call at which another thread (rtr_stop from th
 between (the translated function is sequential); such truncations are counted.
 """
 import os
+import subprocess
 import sys
 
 sys.path.insert(0, os.path.dirname(os.path.abspath(__file__)))
@@ -124,6 +125,8 @@ def run(rep, tier, cases_ops):
     import rtrcheck
     flags = vlib.SAN_FLAGS_NOALIGN + ["-DXTRACE"]
     exe, blog = vlib.build_harness("rtr", ["rtr_harness.c"], exclude=rtrcheck.EXCLUDE, flags=flags, variant="xtrace")
+    # the driver takes the specifications from proof-free copies of the link modules (tools/gen_specs.py): it builds also when a link proof is broken
+    subprocess.run([sys.executable, os.path.join(vlib.VERIF, "tools", "gen_specs.py")], stdout=subprocess.DEVNULL, stderr=subprocess.DEVNULL)
     ok, log = vlib.lake_build(["cfundriver"])
     drv = vlib.driver_path("cfundriver")
     info = rep.cov.setdefault("translator_validation", {})
